@@ -13,3 +13,84 @@ package txnsnapshot
 //@   ensures version: s.version == ts
 //@   ensures cache: s.mu.cached == nil
 //@   ensures hints: s.resolvedLocks.m == nil && s.committedLocks.m == nil
+
+// ---- the scanner: one request per batch, cursor bookkeeping (keys abstract: bytes: key; "" is -inf as a start, +inf as an end)
+//@ spec func minEnd(a []byte, b []byte) []byte { return ite(a != "" && (b == "" || a < b), a, b) }
+//@ spec func maxKey(a []byte, b []byte) []byte { return ite(a > b, a, b) }
+//@ spec func inRange(s []byte, e []byte, k []byte) bool { return s <= k && (e == "" || k < e) }
+//@ spec func inRangeByEnd(s []byte, e []byte, k []byte) bool { return ite(k == "", e == "", s < k && (e == "" || k <= e)) }
+
+// getData asks the region that holds the cursor for the next batch: from the cursor up to the region end clipped to the
+// scan's bound (forward) / from the region start clipped to the scan's lower bound up to the cursor (reverse), at the
+// snapshot's timestamp, for a whole batch. Afterwards the cursor stands right behind what was read: at the region border
+// when the region had less than a batch (end of scan when that border is the scan's bound or the end of the key space),
+// otherwise right after (forward) / at (reverse: the upper bound is exclusive) the last key received.
+//@ func (*Scanner) getData
+//@   prop C05
+//@   bytes: key
+//@   opaque-callee ExtractLockFromKeyErr MayBackoffForRegionError NewRegionRequestSender
+//@   at call(SendReq) assert request: arg_req != nil && arg_req.Req.(*kvrpcpb.ScanRequest) == sreq && arg_regionID == loc.Region && sreq.Version == s.snapshot.version && sreq.Limit == uint32(s.batchSize) && sreq.Reverse == s.reverse &&
+//@       ite(s.reverse,
+//@           sreq.StartKey == s.nextEndKey && sreq.EndKey == maxKey(loc.StartKey, s.nextStartKey) && inRangeByEnd(loc.StartKey, loc.EndKey, s.nextEndKey),
+//@           sreq.StartKey == s.nextStartKey && sreq.EndKey == minEnd(loc.EndKey, s.endKey) && inRange(loc.StartKey, loc.EndKey, s.nextStartKey))
+//@   loop 1 invariant cursor: s.nextStartKey == old(s.nextStartKey) && s.nextEndKey == old(s.nextEndKey) && s.endKey == old(s.endKey) && s.reverse == old(s.reverse) && s.batchSize == old(s.batchSize) && s.eof == old(s.eof) && s.snapshot == old(s.snapshot)
+//@   ensures fwd: result == nil && !s.reverse ==> s.idx == 0 && s.nextEndKey == old(s.nextEndKey) && ite(len(s.cache) < s.batchSize,
+//@       s.nextStartKey == loc.EndKey && (s.eof <==> (old(s.eof) || loc.EndKey == "" || (s.endKey != "" && s.nextStartKey >= s.endKey))),
+//@       (s.cache[len(s.cache)-1] != nil ==> s.nextStartKey == kv.NextKey(s.cache[len(s.cache)-1].Key)) && s.eof == old(s.eof))
+//@   ensures rev: result == nil && s.reverse ==> s.idx == 0 && s.nextStartKey == old(s.nextStartKey) && ite(len(s.cache) < s.batchSize,
+//@       s.nextEndKey == maxKey(loc.StartKey, s.nextStartKey) && (s.eof <==> (old(s.eof) || loc.StartKey == "" || (s.nextStartKey != "" && s.nextStartKey >= s.nextEndKey))),
+//@       (s.cache[len(s.cache)-1] != nil ==> s.nextEndKey == s.cache[len(s.cache)-1].Key) && s.eof == old(s.eof))
+//@   ensures progress: result == nil && !s.reverse && !s.eof ==> (len(s.cache) < s.batchSize ==> s.nextStartKey > old(s.nextStartKey)) && (len(s.cache) >= s.batchSize && s.cache[len(s.cache)-1] != nil && s.cache[len(s.cache)-1].Key >= old(s.nextStartKey) ==> s.nextStartKey > old(s.nextStartKey))
+//@   ensures idx: result == nil ==> s.idx == 0
+//@   ensures same: s.endKey == old(s.endKey) && s.reverse == old(s.reverse) && s.batchSize == old(s.batchSize) && s.valid == old(s.valid) && s.snapshot == old(s.snapshot) && (s.reverse ==> s.nextStartKey == old(s.nextStartKey))
+
+// A locked pair is replaced by what a point read at the same snapshot returns; afterwards it carries no error.
+//@ func (*Scanner) resolveCurrentLock
+//@   prop C05
+//@   bytes: key
+//@   opaque-callee get
+//@   modifies kvrpcpb.KvPair.Error of current, kvrpcpb.KvPair.Value of current
+//@   ensures result == nil ==> current.Error == nil
+
+// Next stops on a pair inside the scan's bounds (below the end key going forward, at or above the lower bound going
+// backward) that carries no pending lock error, or closes the scanner: beyond the bound, at the end of the data, or on
+// an error.
+//@ func (*Scanner) Next
+//@   prop C05
+//@   bytes: key
+//@   requires batch: s.batchSize > 1 && s.idx >= -1
+//@   opaque-callee NewBackofferWithVars WithRPCInterceptor SetCtx
+//@   loop 1 invariant same: s.endKey == old(s.endKey) && s.reverse == old(s.reverse) && s.batchSize == old(s.batchSize)
+//@   loop 1 invariant valid: s.valid
+//@   loop 1 invariant snap: s.snapshot == old(s.snapshot)
+//@   loop 1 invariant lower: s.reverse ==> s.nextStartKey == old(s.nextStartKey)
+//@   loop 1 invariant idx: -1 <= s.idx
+//@   ensures inbounds: result == nil && s.valid ==> 0 <= s.idx && s.idx < len(s.cache) && (s.cache[s.idx] != nil ==>
+//@       ite(s.reverse, s.nextStartKey == "" || s.cache[s.idx].Key >= s.nextStartKey, s.endKey == "" || s.cache[s.idx].Key < s.endKey))
+//@   ensures resolved: result == nil && s.valid && s.cache[s.idx] != nil ==> s.cache[s.idx].Error == nil
+//@   ensures closed: result != nil ==> !s.valid
+//@   ensures bounds: s.endKey == old(s.endKey) && s.reverse == old(s.reverse)
+
+//@ func newScanner
+//@   prop C05
+//@   bytes: key
+//@   ensures made: result0 != nil && result0.batchSize > 1 && result0.endKey == endKey && result0.reverse == reverse && result0.snapshot == snapshot
+
+// ---- batch get of one region ----------------------------------------------------------------------------------------
+// The request names exactly the given keys at the snapshot's timestamp.
+//@ func (*KVSnapshot) buildBatchGetRequest
+//@   prop C05
+//@   ensures snapshot: result1 == nil && readTier == BatchGetSnapshotTier ==> result0 != nil && result0.Type == tikvrpc.CmdBatchGet && result0.Req.(*kvrpcpb.BatchGetRequest).Keys == keys && result0.Req.(*kvrpcpb.BatchGetRequest).Version == s.version
+//@   ensures buffer: result1 == nil && readTier == BatchGetBufferTier ==> result0 != nil && result0.Type == tikvrpc.CmdBufferBatchGet && result0.Req.(*kvrpcpb.BufferBatchGetRequest).Keys == keys && result0.Req.(*kvrpcpb.BufferBatchGetRequest).Version == s.version
+//@   ensures tier: result1 == nil ==> readTier == BatchGetSnapshotTier || readTier == BatchGetBufferTier
+
+// Every attempt asks the batch's region for exactly the keys still pending; after locks were met only the locked keys
+// stay pending (and only if the response had no response-level error: otherwise the locked-key list may be incomplete and
+// everything is asked again); a region error that cannot be retried in place re-splits exactly the pending keys.
+//@ func (*KVSnapshot) batchGetSingleRegion
+//@   prop C05
+//@   opaque-callee NewClientHelper handleBatchGetRegionError collectBatchGetResponseData handleBatchGetLocks mergeRegionRequestStats
+//@   at call(buildBatchGetRequest) assert asked: arg_keys == pending && arg_readTier == readTier
+//@   at call(SendReqCtx) assert sent: arg_req == req && arg_regionID == batch.region
+//@   at call(batchGetKeysByRegions) assert resplit: arg_keys == pending && arg_readTier == readTier
+//@   loop 1 step narrow: pending == prev(pending) || (pending == lockInfo.lockedKeys && lockInfo.keyErr == nil && len(lockInfo.lockedKeys) > 0)
